@@ -51,6 +51,14 @@ if binp:
                               % (tup[0], tup[1], tup[2], r1['crashed'], status.group(1) if status else None, after[:2]),
                               {'registry': reg, 'policy': pol, 'replay_case': text})
             break
+# every parameter kind (virtual_<T&>, virtual_<T*>, virtual_ptr, const virtual_ptr&, shared pointers ...) and signatures with
+# non-virtual parameters before / between / after: generated programs through the real method<> / macro front ends
+try:
+    import importlib
+    kinds = importlib.import_module('C02_kinds')
+    cov['error_record_by_parameter_kind'] = kinds.run(ctx)
+except Exception as e:
+    ctx.broken.append('C02_kinds harness failed: %r' % (e,))
 cov['handler_returns_abort_checked'] = tried
 cov['handler_returns_aborted'] = aborts
 vlib.finish(ctx, cov, assumptions=['the Gallina model of update/resolve is tied to /repo by differential runs of harness H1 on generated registries',
